@@ -12,6 +12,8 @@
 (*   parse  C04  a well-formed wire message (harness's own encoder) was    *)
 (*               parsed: result = RFC reading; a non-tag byte at a tag     *)
 (*               position is rejected with that byte                       *)
+(*   serde  C20  header / attributes / values serialised with serde_json   *)
+(*               and deserialised: identical; payload empty afterwards     *)
 (***************************************************************************)
 EXTENDS IppModel, IppBytes, TLC, Json, IOUtils
 CONSTANTS NestingDomain          \* collections nested deeper are outside C04's domain
@@ -43,9 +45,17 @@ ParseOK(e) ==
             /\ e.pay_ok
        ELSE (IF e.out.ok THEN TRUE ELSE e.out.err # "PANIC")
 
+(* C20: serialise to JSON with serde and deserialise again; the payload is not serialised *)
+SerdeOK(e) ==
+  /\ e.ok
+  /\ CASE e.what = "msg"   -> e.back.hdr = e.msg.hdr /\ e.back.groups = e.msg.groups /\ e.paylen = 0
+       [] e.what = "attrs" -> e.back.groups = e.msg.groups
+       [] e.what = "value" -> e.back = e.msg
+
 Step(e) == CASE e.ev = "rt"    -> RtOK(e)
              [] e.ev = "enc"   -> EncOK(e)
              [] e.ev = "parse" -> ParseOK(e)
+             [] e.ev = "serde" -> SerdeOK(e)
              [] OTHER          -> FALSE
 
 Init == l = 1
